@@ -126,4 +126,35 @@ def minimise(mod, sc: dict, cls: str, max_execs: int = 300, accept=None):
                     best = cand
                     progress = True
                     break
+        # 3. simpler alternatives for named keys (mod.SHRINK_SIMPLE: key -> simplest value)
+        simple = getattr(mod, "SHRINK_SIMPLE", {})
+        if simple:
+            for path in _key_paths(best, set(simple)):
+                if execs >= max_execs:
+                    break
+                try:
+                    v = _get(best, path)
+                except (KeyError, IndexError, TypeError):
+                    continue
+                target = simple[path[-1]]
+                if v == target:
+                    continue
+                cand = copy.deepcopy(best)
+                _set(cand, path, target)
+                if fails(cand):
+                    best = cand
+                    progress = True
     return best, execs
+
+
+def _key_paths(obj, keys, prefix=()):
+    out = []
+    if isinstance(obj, dict):
+        for k in sorted(obj):
+            if k in keys:
+                out.append(prefix + (k,))
+            out += _key_paths(obj[k], keys, prefix + (k,))
+    elif isinstance(obj, list):
+        for i, v in enumerate(obj):
+            out += _key_paths(v, keys, prefix + (i,))
+    return out
